@@ -34,33 +34,130 @@ CONVERTERS = [
 ]
 
 
+def _same_candle(a, b) -> bool:
+    from ..convsem import Ctor
+
+    if isinstance(a, Ctor) and isinstance(b, Ctor):
+        keys = set(a.slots) | set(b.slots)
+        return all(a.slots.get(k) is b.slots.get(k) or (not hasattr(a.slots.get(k), "name") and a.slots.get(k) == b.slots.get(k)) for k in keys)
+    return a is b
+
+
+def _new_manager(cs, it, tf, tasks):
+    """a manager as its own constructor leaves it (evaluated: `CandleManager(timeframe=tf)`), housekeeping replaced by a counter"""
+    selfo = cs.ObjV("manager", {"_tasks": lambda a, k, t=tasks: None}, "CandleManager")
+    init = it.method("__init__")
+    it.call_function(init, [], {"timeframe": tf} if tf is not None else {}, bound_first=selfo)
+    selfo.attrs["_tasks"] = lambda a, k, t=tasks: t.append(1)
+    if not isinstance(selfo.attrs.get("candles"), list):
+        raise cs.Undecided("the constructor does not leave a candle list")
+    return selfo
+
+
+def eval_append(repo):
+    """CandleManager.append evaluated (convsem) on each encoding of the same candles, for the default manager and a timeframe manager.
+    -> list of (kind, label, status, message)   status: ok | undecided | fail"""
+    from .. import convsem as cs
+
+    out = []
+
+    def converted(name, shape):
+        it = cs.Interp(repo)
+        fn = it.method(name)
+        return it.call_function(fn, [shape], {}, bound_first=cs.TypeRef(it.clsname) if "classmethod" in [ast.unparse(d) for d in fn.decorator_list] else cs._MISSING)
+
+    def scenarios():
+        d1, d2 = cs.dict_shapes()[0][1], cs.dict_shapes()[1][1]
+        yield "one dict", d1, [("from_dict", d1)]
+        yield "a list of two dicts", [d1, d2], [("from_dict", d1), ("from_dict", d2)]
+        for label, row, _ in cs.list_shapes():
+            yield f"one row {label}", row, [("from_list", row)]
+        rows = [s_[1] for s_ in cs.list_shapes()[:3]]
+        yield "a list of three rows (timestamp first / last / absent)", rows, [("from_list", r) for r in rows]
+
+    for tf in (None, "T5"):
+        kind = "the default manager" if tf is None else "a timeframe manager"
+        for label, n in (("one Candle", 1), ("a list of two Candles", 2)):
+            it = cs.Interp(repo, "hexital.core.candle_manager", "CandleManager")
+            objs = []
+            for i in range(n):
+                o = cs.ObjV(f"candle {i}", {}, "Candle")
+                o.attrs["raw_copy"] = (lambda o_: (lambda a, k: cs.ObjV(f"raw copy of {o_.name}", {"of": o_}, "Candle")))(o)
+                objs.append(o)
+            tasks = []
+            arg = objs[0] if n == 1 else list(objs)
+            try:
+                selfo = _new_manager(cs, it, tf, tasks)
+                it.call_function(it.method("append"), [arg], {}, bound_first=selfo)
+            except cs.Undecided as ex:
+                out.append((kind, label, "undecided", str(ex)))
+                continue
+            except cs.Raised as ex:
+                out.append((kind, label, "fail", f"{kind} raises {ex.what} when given {label}: an accepted encoding is rejected"))
+                continue
+            got = selfo.attrs["candles"]
+            good = isinstance(got, list) and len(got) == n and all((g is o) if tf is None else (isinstance(g, cs.ObjV) and g.attrs.get("of") is o) for g, o in zip(got, objs))
+            if good and isinstance(arg, list) and arg != objs:
+                good = False
+            if good and not tasks:
+                out.append((kind, label, "fail", f"{kind}, given {label}, stores the candles without running its housekeeping (_tasks): they are never collapsed / converted / trimmed"))
+            elif good:
+                out.append((kind, label, "ok", ""))
+            else:
+                out.append((kind, label, "fail", f"{kind}, given {label}, holds {got!r}: expected {'the given objects' if tf is None else 'one fresh raw copy (Candle.raw_copy) of each given candle'}, in order"))
+        for label, arg, want in scenarios():
+            it = cs.Interp(repo, "hexital.core.candle_manager", "CandleManager")
+            tasks = []
+            orig_getattr = it.getattr
+
+            def getattr_(obj, attr, orig=orig_getattr):
+                if isinstance(obj, cs.Ctor) and attr == "raw_copy":
+                    return lambda a, k, o=obj: cs.ObjV("raw copy", {"of": o}, "Candle")
+                return orig(obj, attr)
+
+            it.getattr = getattr_
+            snapshot = repr(arg)
+            try:
+                expected = [converted(nm, shp) for nm, shp in want]
+                selfo = _new_manager(cs, it, tf, tasks)
+                it.call_function(it.method("append"), [arg], {}, bound_first=selfo)
+            except cs.Undecided as ex:
+                out.append((kind, label, "undecided", str(ex)))
+                continue
+            except cs.Raised as ex:
+                out.append((kind, label, "fail", f"{kind} raises {ex.what} when given {label}: an accepted encoding of the same candles is rejected"))
+                continue
+            got = selfo.attrs["candles"]
+            vals = [g if tf is None else (g.attrs.get("of") if isinstance(g, cs.ObjV) else None) for g in got] if isinstance(got, list) else None
+            good = vals is not None and len(vals) == len(expected) and all(_same_candle(v, e) for v, e in zip(vals, expected))
+            if good and repr(arg) != snapshot:
+                out.append((kind, label, "fail", f"{kind}, given {label}: the caller's container is changed by append"))
+            elif good:
+                out.append((kind, label, "ok", ""))
+            else:
+                out.append((kind, label, "fail", f"{kind}, given {label}, holds {got!r}; the single-row converters build {expected!r}{'' if tf is None else ' (to be stored as raw copies)'}: the same candles in another encoding are stored differently"))
+    return out
+
+
 def check_dispatch(res, repo):
+    """R-DISPATCH: every encoding of the same candles is stored as the single-row converters build them, in order; the default
+    manager keeps the objects, every other manager a raw copy of each; the caller's containers are not changed"""
     rule = "R-DISPATCH"
     ap = repo.method("hexital.core.candle_manager", "CandleManager", "append")
-    calls = [call_target(c) for c in calls_in(ap.node)]
-    for conv in ("Candle.from_dict", "Candle.from_dicts", "Candle.from_list", "Candle.from_lists"):
-        if conv in calls:
-            res.ok(rule, {"site": ap.where, "arm": conv})
+    n_ok = 0
+    for kind, label, status, msg in eval_append(repo):
+        if status == "ok":
+            n_ok += 1
+        elif status == "undecided":
+            res.errors.append(f"{ap.where} {rule} CandleManager.append: cannot evaluate the dispatch on {label} ({msg}); the rule cannot decide it")
         else:
-            res.fail(rule, finding("C19", rule, ap, ap.node, f"the type dispatch of append no longer routes to {conv}", construct=f"append: {conv}"))
-    # sibling agreement: the first-element types from_list recognises must be routed to it by the dispatcher
-    fl_types = from_list_leading_types(repo)
-    if fl_types is None:
-        fl_types = set()  # (undecided shapes are reported by check_converters)
-    arm_types = set()
-    for n in ast.walk(ap.node):
-        if isinstance(n, ast.If):
-            t = n.test
-            if isinstance(t, ast.Call) and call_name(t) == "isinstance" and _is_first_elem(t.args[0], ap.node) and any(call_target(c) == "Candle.from_list" for st in n.body for c in calls_in(st)):
-                arm_types |= _type_names(t.args[1])
-    if fl_types <= arm_types | {"float", "int"} and {"float", "int"} <= arm_types:
-        res.ok(rule, {"site": ap.where, "from_list first-element types": sorted(fl_types | {"float", "int"}), "dispatch arm accepts": sorted(arm_types)}, nontrivial="dispatch:row-types")
-    else:
-        res.fail(rule, finding("C19", rule, ap, ap.node, f"Candle.from_list recognises a leading {sorted(fl_types)} but the list arm of append only routes rows starting with {sorted(arm_types)}: an equivalent encoding raises TypeError", construct="append: row first-element types"))
+            res.fail(rule, finding("C19", rule, ap, ap.node, msg, construct=f"append: {label} ({kind})"[:190]))
+    if n_ok:
+        res.ok(rule, {"site": ap.where, "evaluated": f"{n_ok} (manager kind x encoding) scenarios", "why": "every encoding of the same candles is stored as the converters build them, in order; timeframe managers store raw copies"}, nontrivial="dispatch:scenarios")
     check_converters("C19", res, repo)
     from ..ownership import check_raw_copies
 
-    check_raw_copies("C19", res, repo, want=("method", "append"))
+    check_raw_copies("C19", res, repo, want=("method",))
 
 
 def check_converters(prop, res, repo, rule="R-DISPATCH"):
